@@ -53,6 +53,11 @@ struct HGuard
 #define RLBOX_ACQUIRE_SHARED_GUARD(name, ...) hs::HGuard<false> name(__VA_ARGS__)
 #define RLBOX_ACQUIRE_UNIQUE_GUARD(name, ...) hs::HGuard<true> name(__VA_ARGS__)
 #define RLBOX_USE_EXCEPTIONS
+#if defined(TLS_EMBEDDER)
+// the per-thread records of the backend are provided by the embedder (this harness)
+#  define RLBOX_EMBEDDER_PROVIDES_TLS_STATIC_VARIABLES
+#  define VM_EMBEDDER_TLS
+#endif
 #if defined(BK_NOOP)
 #  define RLBOX_USE_STATIC_CALLS() rlbox_noop_sandbox_lookup_symbol
 #endif
@@ -78,6 +83,20 @@ using Sbx = rlbox_noop_sandbox;
 using Sbx = rlbox_vm_sandbox<vm_abi_wasm32, 12, true, 4>;
 #endif
 using RS = rlbox_sandbox<Sbx>;
+#if defined(TLS_EMBEDDER)
+#  if defined(BK_NOOP)
+RLBOX_NOOP_SANDBOX_STATIC_VARIABLES();
+#  else
+static thread_local vm_thread_data<Sbx> g_vm_tls;
+namespace rlbox {
+template<>
+vm_thread_data<Sbx>* vm_get_thread_data<Sbx>()
+{
+  return &g_vm_tls;
+}
+}
+#  endif
+#endif
 
 static tr::Out out;
 static const int MAXT = 16;
